@@ -211,13 +211,15 @@ fn binv_field<F: PrimeField>(cx: &mut Ctx, small_max: usize, big: &[usize]) {
         binv(cx, &ts, &vec![F::zero(); n], F::one());
         let mut v = vec![F::zero(); n];
         v[n / 2] = rnz(&mut cx.rng);
-        binv(cx, &ts, &v, rnz(&mut cx.rng));
+        let c: F = rnz(&mut cx.rng);
+        binv(cx, &ts, &v, c);
         let mut v: Vec<F> = (0..n).map(|_| rnz(&mut cx.rng)).collect();
         v[n - 1] = F::zero();
         binv(cx, &ts, &v, F::one());
         let mut v: Vec<F> = (0..n).map(|_| rnz(&mut cx.rng)).collect();
         for x in v.iter_mut().take(n / 3 + 1) { *x = F::zero(); }
-        binv(cx, &ts, &v, rnz(&mut cx.rng));
+        let c: F = rnz(&mut cx.rng);
+        binv(cx, &ts, &v, c);
     }
     for &n in big {
         let v = rvec::<F>(&mut cx.rng, n);
